@@ -68,6 +68,16 @@ pub fn retain(r: &mut Rng, n: u64, thorough: bool, out: &mut Out) {
             6..=9 => r.range(8, 30),
             _ => r.range(30, if thorough { 64 } else { 40 }),
         } as u32;
+        // sizes around powers of two (1 case in 16; the larger ones 1 in 100)
+        let size = if gen::small() {
+            size
+        } else if r.chance(1, 100) {
+            *r.pick(&[127u32, 128, 129, 255, 256, 257, 300])
+        } else if r.chance(1, 16) {
+            *r.pick(&[15u32, 16, 17, 18, 31, 32, 33, 34, 63, 64, 65, 66])
+        } else {
+            size
+        };
         let reg = if r.chance(1, 3) { gen::wf_registry(r, size) } else { structured_registry(r, size) };
         let keep: Vec<u32> = match r.below(6) {
             0 => vec![],
